@@ -1,4 +1,4 @@
-package funcs
+package run
 
 // C15 (b): two-operation non-interference on whole operations. An operation is
 // "load the script text (engine.ParseScript with the registered functions and
@@ -19,6 +19,7 @@ import (
 	"github.com/GuanceCloud/platypus/pkg/engine"
 	"github.com/GuanceCloud/platypus/pkg/engine/runtime"
 	"github.com/GuanceCloud/platypus/pkg/errchain"
+	"github.com/GuanceCloud/platypus/pkg/inimpl/guancecloud/funcs"
 	"github.com/GuanceCloud/platypus/pkg/inimpl/guancecloud/input"
 )
 
@@ -102,7 +103,7 @@ type vc15Result struct {
 }
 
 func vc15Load(name, src string) (*runtime.Script, error) {
-	ok, errs := engine.ParseScript(map[string]string{name: src, "lib.p": vc15Lib, "lib2.p": vc15Lib2}, FuncsMap, FuncsCheckMap)
+	ok, errs := engine.ParseScript(map[string]string{name: src, "lib.p": vc15Lib, "lib2.p": vc15Lib2}, funcs.FuncsMap, funcs.FuncsCheckMap)
 	if s, has := ok[name]; has {
 		return s, nil
 	}
